@@ -488,3 +488,94 @@ def beta_sheets(ctx, case):
 
 for _case in SHEET_CASES:
     contract("C15", FILE, "calculate_beta_sheets", cases=[_case], lang="c", replay="dssp", covers=["finished", "some-bridge"], max_paths=5000)(beta_sheets)
+
+
+# =====================================================================================================
+# compute_dssp (mdtraj/geometry/dssp.py) and _prep_kabsch_sander_arrays (hbond.py): what is handed to the kernel, the 'NA'
+# overlay and the simplified alphabet
+def compute_dssp_py(ctx, case):
+    import numpy as np
+    from mdvc.pyinterp import Namespace
+
+    simplified = case
+    interp = ctx.interp
+    interp.import_models["numpy"] = np  # everything here is concrete: NumPy itself
+    codes = "HBEGITS "
+    R, F = len(codes) + 2, 2
+    calls = []
+
+    class At:
+        def __init__(self, i, name):
+            self.index, self.name = i, name
+
+    class Ch:
+        def __init__(self, i):
+            self.index = i
+
+    class Res:
+        def __init__(self, i, name, atoms, chain):
+            self.index, self.name, self.atoms, self.chain = i, name, atoms, chain
+
+    residues, k = [], 0
+    for r in range(R):
+        names = ["N", "CA", "C", "O", "CB"]
+        if r == 3:
+            names = ["N", "CA", "C"]  # lacks O: not a complete protein residue
+        if r == R - 1:
+            names = ["O", "H1", "H2"]  # a water
+        atoms = []
+        for nm in names:
+            atoms.append(At(k, nm))
+            k += 1
+        residues.append(Res(r, "PRO" if r == 5 else "ALA", atoms, Ch(0 if r < 6 else 1)))
+
+    class Top:
+        pass
+    top = Top()
+    top.residues = residues
+
+    class T:
+        pass
+    t = T()
+    t.topology = t.top = top
+    t.xyz = np.zeros((F, k, 3), dtype=np.float32)
+    complete = [r != 3 and r != R - 1 for r in range(R)]
+    row = "".join(codes[j % len(codes)] for j in range(R))
+    kernel_out = row + row[::-1]
+
+    def _dssp(xyz, nco, ca, pro, chain_ids):
+        calls.append(dict(xyz=xyz, nco=np.array(nco), ca=np.array(ca), pro=np.array(pro), chain=np.array(chain_ids)))
+        return kernel_out
+
+    interp.import_models["mdtraj.geometry"] = Namespace("geometry", _geometry=Namespace("_geometry", _dssp=_dssp))
+    hb = ctx.module("mdtraj/geometry/hbond.py")
+    interp.import_models["mdtraj.geometry.hbond"] = Namespace("hbond", _prep_kabsch_sander_arrays=hb.globals["_prep_kabsch_sander_arrays"])
+    mod = ctx.module("mdtraj/geometry/dssp.py")
+    out = ctx.call(mod.globals["compute_dssp"], t, simplified=simplified)
+    ctx.ensure("no-exception", not out.raised)
+    if out.raised:
+        return
+    ctx.cover("returned")
+    ctx.ensure("kernel-called-once", len(calls) == 1)
+    if len(calls) != 1:
+        return
+    kc = calls[0]
+    idx = lambda r, nm: next((a.index for a in residues[r].atoms if a.name == nm), -1)
+    ctx.ensure("kernel-gets-the-coordinates", kc["xyz"] is t.xyz or np.array_equal(kc["xyz"], t.xyz))
+    ctx.ensure("N,C,O-index-table(-1-for-a-missing-atom)", kc["nco"].tolist() == [[idx(r, "N"), idx(r, "C"), idx(r, "O")] for r in range(R)])
+    ctx.ensure("CA-index-table(-1-for-a-missing-atom)", kc["ca"].tolist() == [idx(r, "CA") for r in range(R)])
+    ctx.ensure("proline-flags", kc["pro"].tolist() == [1 if residues[r].name == "PRO" else 0 for r in range(R)])
+    ctx.ensure("chain-index-per-residue", kc["chain"].tolist() == [residues[r].chain.index for r in range(R)])
+    res = out.value
+    ctx.ensure("shape=(n_frames,n_residues)", tuple(res.shape) == (F, R))
+    simp = {"H": "H", "G": "H", "I": "H", "E": "E", "B": "E", "T": "C", "S": "C", " ": "C"}
+    ok = True
+    for f in range(F):
+        for r in range(R):
+            kc_ = kernel_out[f * R + r]
+            want = "NA" if not complete[r] else (simp[kc_] if simplified else kc_)
+            ok = ok and str(res[f][r]) == want
+    ctx.ensure("residue-code=kernel's-code(or-its-fixed-three-letter-image);'NA'-exactly-for-residues-lacking-N,CA,C-or-O", ok)
+
+
+contract("C15", "mdtraj/geometry/dssp.py", "compute_dssp", cases=[False, True], replay="dssp", covers=["returned"])(compute_dssp_py)
